@@ -107,6 +107,34 @@ def jobs(tier):
                 for signed in (0, 1):
                     J([['read', n, size, signed, 0]], seed_key=sk)
                 J([['write', n, size]], seed_key=sk)
+        # every object count for the multi-byte object sizes (count x size <= 255 bytes)
+        for sk in (False, True):
+            for size in (2, 4, 8):
+                for count in range(1, 255 // size + 1):
+                    n = count * size
+                    J([['read', n, size, count % 2, 0]], seed_key=sk)
+                    if count % 3 == 0 or n <= 16:
+                        J([['read', n, size, 1 - count % 2, 0]], seed_key=sk)
+                    J([['write', n, size]], seed_key=sk)
+        # every history of two and three transactions over a set of shapes (single frame / boundary / multi-packet,
+        # read / write, 1-byte and multi-byte objects), each with its own symbolic pointer
+        shapes = [['read', 4, 1, 0, 1], ['read', 8, 1, 0, 1], ['read', 18, 2, 1, 0], ['write', 3, 1], ['write', 7, 1], ['write', 8, 4], ['read', 7, 1, 1, 0]]
+        for sk in (False, True):
+            for a in shapes:
+                for b in shapes:
+                    J([a, b], seed_key=sk)
+                    for c in shapes[:4]:
+                        J([a, b, c], seed_key=sk)
+        for cl in ('query',):
+            for n in (1, 7, 8, 9, 20, 100, 255):
+                for sk in (False, True):
+                    J([['read', n, 1, 0, 1]], client=cl, seed_key=sk)
+                    J([['write', n, 1]], client=cl, seed_key=sk)
+        for n in (1, 7, 8, 9, 20, 255):
+            J([['read', n, 1, 0, 1], ['write', n, 1]], direct=0)
+        for cli in (0, 1, 253):
+            for sk in (False, True):
+                J([['read', 7, 1, 0, 1], ['write', 8, 1], ['read', 9, 1, 0, 1]], seed_key=sk, cli=cli)
     return out
 
 
@@ -115,7 +143,7 @@ def meta(tier):
         'bounds': ['data lengths ' + ('{1,2,7,8,9,16,20}' if tier == 'quick' else 'every length 1..255') + ' bytes (single-frame DM16 up to 7, RTS/CTS above), object sizes 1/2/4/8',
                    '32-bit pointer, every data byte supplied by the server, every written value (full unsigned range), the seed (all 16-bit values) symbolic; key function seed ^ 0xFFFF',
                    'read raw / converted, signed / unsigned; direct and spatial addressing; with and without seed/key; client through MemoryAccess and through Dm14Query',
-                   '1..3 transactions back to back on the same objects; canonical schedule (all interleavings for one 20-byte read and write)'],
+                   '1..3 transactions back to back on the same objects, each with its own symbolic pointer' + ('' if tier == 'quick' else ' (every history of 2 and of 3 transactions over 7 shapes)') + '; canonical schedule (all interleavings for one 20-byte read and write' + ('' if tier == 'quick' else ' and for 8, 9, 15, 30 bytes') + ')'],
         'outside': ['other lengths', 'J1939-22'],
         'assumptions': ['command, status and pointer type stay concrete (they reach identity comparisons in the code under test)',
                         'the serving application answers 2 ms after the notify callback from its own thread (world event)',
